@@ -42,7 +42,7 @@ def run(ctx):
     if err:
         ctx.violation('translator of the start-condition stack functions gave up: ' + err, {'error': err}, no_input=True)
     q1, q2, q3 = {'quick': (64, 48, 32), 'thorough': (600, 400, 200)}[ctx.tier]
-    plan = [('eof', q1, 6), ('ops', q2, 6), ('deepstack', q3, 4)]
+    plan = [('eof', q1, 6), ('ops', q2, 6), ('deepstack', q3, 4), ('scbol', q2, 6)]
     return rtprop.run(ctx, THEOREMS + STACK_THEOREMS, plan, 'proof',
                       'start conditions: begin/push/pop/top scripts (underflow included) inside actions, with yywrap chains and EOF rules; yystart() and yy_top_state() are logged and compared; the stack functions themselves (yy_push_state, yy_pop_state, yy_top_state, yybegin, yystart, the initialisation of yy_start) are translated from a scanner flex generates in this run into Gen/StartStack.lean and proved to be a LIFO stack for every sequence of calls, never indexing outside the array, with yy_start = 1 + 2*condition once yylex has run (C05Stack.stack_refines, never_out_of_bounds, start_state_encoding)' + '. Kernel-checked theorems about the abstract scanner (listed under obligations) + differential '
                       'correspondence of the real generated scanner (ASan/UBSan build) with that model on generated cases.')
